@@ -165,6 +165,8 @@ func (s *ClientSession) Start(rawUrl string) error {
 	if err := s.parseUrl(rawUrl); err != nil {
 		return err
 	}
+	// 在connect协程启动之前设置：Start超时或被Dispose返回后，上层可能立即调用GetStat，此时connect协程可能还在执行
+	s.sessionStat.SetRemoteAddr(s.urlCtx.HostWithPort)
 
 	err := s.doContext(ctx)
 	if err != nil {
@@ -308,8 +310,6 @@ func (s *ClientSession) streamNameWithRawQuery() string {
 func (s *ClientSession) tcpConnect() error {
 	Log.Infof("[%s] > tcp connect.", s.UniqueKey())
 	var err error
-
-	s.sessionStat.SetRemoteAddr(s.urlCtx.HostWithPort)
 
 	var conn net.Conn
 	if s.urlCtx.Scheme == "rtmps" {
